@@ -300,6 +300,37 @@ pub fn run(out: &mut Out, seed: u64, thorough: bool, scn: Option<&str>) {
         }
         rx.ev_drain(out);
     }
+    // configuration calls between packets, every ordered pair of them (the same call twice included), from every
+    // starting policy: label A, call 1, label B (or nothing), call 2, label A twice.  Whatever the calls were,
+    // the second A may only be substituted if the packet before it carried A
+    let cfgs = [Cfg::Disable, Cfg::Enable, Cfg::EnableMax(0), Cfg::EnableMax(1), Cfg::EnableMax(2)];
+    for start in [None, Some(Cfg::EnableMax(1)), Some(Cfg::EnableMax(2)), Some(Cfg::Disable)] {
+        for c1 in cfgs {
+            for c2 in cfgs {
+                for with_b in [true, false] {
+                    let mgr = TableMgr { known: vec![] };
+                    let mut rx = mk_rx(out, "labels", "cfg_between", 3, 64, 3, mgr, true);
+                    let mut enc = Encapsulator::new(DefaultCrc {});
+                    if let Some(c0) = start {
+                        ev_cfg(out, &mut enc, c0);
+                    }
+                    let t = ev_encap(out, &mut enc, &pool.small[0], 1, LA6, 0x0800, 64, None, None);
+                    feed_tx(out, &mut rx, &t);
+                    ev_cfg(out, &mut enc, c1);
+                    if with_b {
+                        let t = ev_encap(out, &mut enc, &pool.small[1], 1, LB3, 0x0800, 64, None, None);
+                        feed_tx(out, &mut rx, &t);
+                    }
+                    ev_cfg(out, &mut enc, c2);
+                    for i in 0..3 {
+                        let t = ev_encap(out, &mut enc, &pool.small[(2 + i) % 4], 1, LA6, 0x0800, 64, None, None);
+                        feed_tx(out, &mut rx, &t);
+                    }
+                    rx.ev_drain(out);
+                }
+            }
+        }
+    }
     // the CRC calculator is replaced in the middle of a streak: policy (disabled / maximum), counter and
     // remembered label are not its business
     for (ci, cfg) in [Cfg::Disable, Cfg::EnableMax(1), Cfg::EnableMax(2), Cfg::EnableMax(3), Cfg::Enable].into_iter().enumerate() {
